@@ -210,8 +210,53 @@ def multi_send(R=2, n=3):
     return build_program(R, ops, outs)
 
 
+def multi_stage_shared(kind, K=3, rounds=2, outer_first=False):
+    """2 ranks exchanging in several rounds; every round's payload and the output re-use the same K materialised
+    arrays (kind: "inputs" = K placeholders, "stored" = K stored intermediates of x, "mixed")"""
+    R = 2
+    ops = []
+    for k in range(rounds):
+        for r in range(R):
+            ops.append({"src": r, "dst": 1 - r, "tag": 100 + len(ops), "deps": [], "use_input": True})
+    ranks = {}
+    for r in range(R):
+        if kind == "inputs":
+            shared = [["ph", n, SHAPE, DT, f"rank{r}"] for n in ("x", "y", "z", "w")[:K]]
+        elif kind == "stored":
+            shared = [["tag", ["stored"], ["bin", "mul", inp(r), ["py", float(k + 2)]]] for k in range(K)]
+        else:
+            shared = [["ph", "y", SHAPE, DT, f"rank{r}"]] + \
+                [["tag", ["stored"], ["bin", "mul", inp(r), ["py", float(k + 2)]]] for k in range(K - 1)]
+        out = None
+        prev = None
+        sends = []
+        for k in range(rounds):
+            i = k * R + r
+            parts = list(shared if not (k % 2 and outer_first) else reversed(shared))
+            if prev is not None:
+                parts = [prev, *parts]
+            sends.append((i, combine(parts, 10 * (i + 1))))
+            prev = recv_term(ops[k * R + (1 - r)])
+        out = combine([prev, *shared], 1000 * (r + 1))
+        res = out
+        for i, pl in (reversed(sends) if outer_first else sends):
+            res = ["send", pl, ops[i]["dst"], ops[i]["tag"], res]
+        ranks[r] = {"outs": [["out", res]]}
+    for k in range(1, rounds):
+        for r in range(R):
+            ops[k * R + r]["deps"] = [(k - 1) * R + (1 - r)]
+    return {"R": R, "ops": ops, "ranks": ranks, "mode": "plain"}
+
+
 def structured(tier):
     res = []
+    for kind in ("inputs", "stored", "mixed"):
+        for K in (2, 3):
+            res.append((f"multi-stage-{kind}{K}", multi_stage_shared(kind, K)))
+        res.append((f"multi-stage-{kind}3-outer-first", multi_stage_shared(kind, 3, outer_first=True)))
+    if tier != "quick":
+        for kind in ("inputs", "stored", "mixed"):
+            res.append((f"multi-stage-{kind}4x3", multi_stage_shared(kind, 4, rounds=3)))
     for R in (2, 3):
         res.append((f"ring{R}", ring(R)))
         res.append((f"ring{R}x2", ring(R, 2)))
